@@ -85,11 +85,10 @@ with item : N -> N -> list tok -> Prop :=
     m3 <= s9 -> s9 <= e9 -> tag_toks e9 l9 ->
     item lo e9 (((R_helper_block_start, s0, e0) :: l0) ++ body ++ chains ++ inv
                 ++ (R_helper_block_end, s9, e9) :: l9)
-| i_rawblock lo s0 e0 l0 s1 e1 s2 e2 l2 :
-    lo <= s0 -> s0 <= e0 -> tag_toks e0 l0 -> e0 <= s1 -> s1 <= e1 -> e1 <= s2 -> s2 <= e2 ->
-    tag_toks e2 l2 ->
+| i_rawblock lo s0 e0 l0 s1 e1 e2 l2 :
+    lo <= s0 -> s0 <= e0 -> tag_toks e0 l0 -> e0 <= s1 -> s1 <= e1 -> e1 <= e2 -> tag_toks e2 l2 ->
     item lo e2 (((R_raw_block_start, s0, e0) :: l0)
-                ++ (R_raw_block_text, s1, e1) :: (R_raw_block_end, s2, e2) :: l2)
+                ++ (R_raw_block_text, s1, e1) :: (R_raw_block_end, e1, e2) :: l2)
 | i_dblock lo rs re s0 e0 l0 body m1 s9 e9 l9 :
     deco_pair rs re -> lo <= s0 -> s0 <= e0 -> tag_toks e0 l0 -> tmpl e0 m1 body ->
     m1 <= s9 -> s9 <= e9 -> tag_toks e9 l9 ->
